@@ -29,8 +29,11 @@ PROGRAMS = {
     'included': 'a:\ninclude inc/part.asm\nj a',
     'ok_only': 'a:\nb:\naddi x1, x0, 5\nc:\nli x6, K',
     'nolabels': 'addi x1, x0, 5\nli x6, K\ndw 7',
+    'needs_i': 'a:\ninclude part.asm\nj a',
 }
-INC = {'/proj/src/inc/part.asm': 'part:\naddi x3, x0, K\ndw part'}
+INC = {'/proj/src/inc/part.asm': 'part:\naddi x3, x0, K\ndw part',
+       '/proj/run/zinc/part.asm': 'zpart:\naddi x3, x0, K',
+       '/proj/run/ainc/part.asm': 'apart:\naddi x4, x0, K\naddi x0, x0, 0'}
 
 ARGVS = {
     'default': [],
@@ -44,6 +47,8 @@ ARGVS = {
     'defs_v': ['--include-definitions', '-v', '-o', 'out.bin', '-l', 'labels.txt'],
     'hex_sym': ['--hex-offset', '@H@', '-o', 'out.bin'],
     'hex_sym_l': ['-l', 'labels.txt', '--hex-offset', '@H@'],
+    'i_two': ['-i', 'zinc', '-i', 'ainc', '-o', 'out.bin', '-l', 'labels.txt'],
+    'i_two_dup': ['-i', 'zinc', '-i', '../run/ainc', '-i', 'zinc'],
 }
 
 
@@ -79,13 +84,13 @@ def cli_task(prog, argv_name):
 
     def cap(*a, **k):
         out = orig(*a, **k)
-        captured.append((out, k.get('labels')))
+        captured.append((out, k.get('labels'), list(k.get('include_dirs') or [])))
         return out
     asm.assemble = cap
 
     def fn(p):
         v = vfsmod.VFS('/proj/run')
-        for d in ('/proj/run', '/proj/src', '/proj/src/inc'):
+        for d in ('/proj/run', '/proj/src', '/proj/src/inc', '/proj/run/zinc', '/proj/run/ainc'):
             v.add_dir(d)
         for pth, data in OLD.items():
             (v.add_bytes if isinstance(data, bytes) else v.add_text)(pth, data)
@@ -155,11 +160,16 @@ def cli_task(prog, argv_name):
         probs = []
         args = p.notes['argv']
         outp = '/proj/run/' + (args[args.index('-o') + 1] if '-o' in args else 'bb.out')
-        out, labels = captured[-1] if captured else (None, None)
+        out, labels, used_dirs = captured[-1] if captured else (None, None, [])
         f = v.files.get(outp)
         if f is None or f.kind != 'written' or len(f.content) != 1 or \
                 not _same_bytes(f.content[0], out):
             probs.append('-o file is not exactly the assembled bytes')
+        # the -i directories reach the assembler in the order given (duplicates may be dropped)
+        given = [v.abspath(args[i + 1]) for i, a_ in enumerate(args) if a_ == '-i']
+        dedup = lambda xs: [x for i, x in enumerate(xs) if x not in xs[:i]]
+        if dedup([d for d in used_dirs if d in given]) != dedup(given):
+            probs.append('-i directories %r reached the assembler as %r' % (given, used_dirs))
         expected_writes = {outp}
         if '-l' in args:
             lp = '/proj/run/' + args[args.index('-l') + 1]
@@ -203,18 +213,30 @@ def _same_bytes(a, b):
 
 
 def _labels_ok(lines, labels):
+    """one line per label: the label's name and its address (the number format is not fixed by
+    the property: any formatting of exactly that label's value is accepted)"""
     if labels is None or len(lines) != len(labels):
         return False
     for line, (name, val) in zip(lines, labels.items()):
+        parts = line.split()
+        if len(parts) < 2 or parts[0].rstrip(':=') != name or not line.endswith('\n'):
+            return False
+        tok = parts[-1]
         if isinstance(val, SymInt):
-            m = re.fullmatch(r'(\S+) 0x(\u27e6\d+:08x\u27e7)\n', line)
-            if not m or m.group(1) != name:
+            m = re.search(r'\u27e6\d+:[^\u27e7]*\u27e7', tok)
+            if not m:
                 return False
-            v, spec = Formatted.table.get(m.group(2), (None, None))
-            if v is not val or spec != '08x':
+            v, spec = Formatted.table.get(m.group(0), (None, None))
+            if v is not val:
                 return False
         else:
-            if line != '%s 0x%08x\n' % (name, val):
+            ok = False
+            for base in (0, 16, 10):
+                try:
+                    ok = ok or int(tok, base) == val
+                except ValueError:
+                    pass
+            if not ok:
                 return False
     return True
 
@@ -228,7 +250,7 @@ def _real_cli(real, prog, argv, kv):
     old_cwd, old_argv = os.getcwd(), sys.argv
     log = []
     try:
-        for d in ('/proj/run', '/proj/src/inc'):
+        for d in ('/proj/run', '/proj/src/inc', '/proj/run/zinc', '/proj/run/ainc'):
             os.makedirs(root + d, exist_ok=True)
         for pth, data in OLD.items():
             with open(root + pth, 'wb' if isinstance(data, bytes) else 'w') as f:
@@ -271,6 +293,8 @@ def _snapshot(d):
     import os
     out = {}
     for n in os.listdir(d):
-        with open(os.path.join(d, n), 'rb') as f:
-            out[n] = f.read()
+        full = os.path.join(d, n)
+        if os.path.isfile(full):
+            with open(full, 'rb') as f:
+                out[n] = f.read()
     return out
